@@ -14,6 +14,10 @@ import Operon.Model.Cffl
       the executor (w = e / E) or the assessor (w = a / A) of request i is being consulted — after the call was
       counted, before the agent spends energy and answers — request i+1 runs completely, then the clock advances
       by d_i µs.  `-` = the request was never issued.
+  set gate|cache|ttl|breaker|thr|tmo <value>  -> "- ; stats"   a public attribute of the live loop is re-assigned
+      (gate_logic, enable_cache, cache_ttl, enable_circuit_breaker, failure_threshold, recovery_timeout): the
+      configuration changes, the state (breaker, cache, counters) stays
+  set agents 0                                -> "- ; stats"   fresh agent objects are assigned to loop.executor / .assessor
   Verdicts are the raw `action_type` strings (`x:<hex code points>` for strings that are not one token).
 -/
 namespace Operon.Cffl.Drv
@@ -202,6 +206,20 @@ def step (d : DSt) (toks : List String) : DSt × String :=
     let (s', _) := Cffl.step d.cfg idHashes d.st .clearcache
     ({ d with st := s' }, "- ; " ++ showStats s' d.store)
   | "nest" :: rest => nestLine d rest
+  | ["set", k, v] =>
+    let c := d.cfg
+    let c' : Option Cfg := match k with
+      | "gate" => some { c with gate := gateOf v }
+      | "cache" => some { c with cacheOn := boolOf v }
+      | "ttl" => some { c with ttl := intD v }
+      | "breaker" => some { c with breakerOn := boolOf v }
+      | "thr" => some { c with threshold := intD v }
+      | "tmo" => some { c with timeout := intD v }
+      | "agents" => some c
+      | _ => none
+    match c' with
+    | some c' => ({ d with cfg := c' }, "- ; " ++ showStats d.st d.store ++ " ## set:" ++ k)
+    | none => (d, "bad-op")
   | ["reenter", _, _, _, _, _, _, _, _, _, _] => (d, "ok")   -- re-entrant agent stubs: judged by the harness oracle only
   | _ => (d, "bad-op")
 
